@@ -17,8 +17,11 @@ def main():
         print(f"== {t}: {r.status} cases={r.cases} paths={r.paths} obligations={len(r.obligations)} solver={r.solver_s:.2f}s wall={r.wall_s:.2f}s {r.reason}")
         for oid, rec in sorted(r.obligations.items()):
             print(f"   {rec['status']:8s} {oid.split('/',1)[1]:30s} q={rec['queries']} {rec['time']:.2f}s  {rec['note'][:90]}")
+        seen = {}
         for v in r.violations:
-            print("   VIOL", v["oid"], v["case"], v["path"], json.dumps(v["model"])[:300])
+            seen[v["oid"]] = seen.get(v["oid"], 0) + 1
+            if seen[v["oid"]] <= 2:
+                print("   VIOL", v["oid"], v["case"], v["path"], json.dumps(v["model"])[:300])
         for u in r.undecided:
             print("   UNDEC", u["oid"], u["reason"][:200])
         if "-v" in sys.argv:
